@@ -53,6 +53,7 @@ MC_JOBS = {
     "kitty": ("UrwidScreen", "MC_UrwidScreen.cfg"),
     "konsole": ("UrwidScreen", "MC_UrwidScreen_konsole.cfg"),
     "other": ("UrwidScreen", "MC_UrwidScreen_other.cfg"),
+    "forced": ("UrwidScreen", "MC_UrwidScreen_forced.cfg"),
     "dyn": ("UrwidScreen", "MC_UrwidScreen_dyn.cfg"),
     "bad": ("UrwidScreen", "MC_UrwidScreen_bad.cfg"),
     "alloc": ("UrwidAlloc", "MC_UrwidAlloc.cfg"),
@@ -132,7 +133,7 @@ def run_script(scn: dict) -> tuple[dict, list[dict]]:
 def apply_op(w: cw.World, op: dict) -> str:
     k = op["op"]
     if k == "new":
-        w.new(op["style"], op["nw"], op["nh"], op.get("sub", 0))
+        w.new(op["style"], op["nw"], op["nh"], op.get("sub", 0), op.get("fs", ""))
     elif k == "climg":
         w.clear_images(op["w"], op["now"])
     elif k == "drop":
@@ -219,8 +220,8 @@ def edge_histories(rep: Report, cfg: str, ident: str, styles: list, max_len: int
     nat = [(4, 3), (2, 2), (4, 2)]
     done = 0
     while wk.remaining and (limit is None or done < limit):
-        ops = [dict(op="new", style=styles[i], nw=nat[i][0], nh=nat[i][1], sub=(i + len(scripts)) % 3)
-               for i in range(3)]
+        ops = [dict(op="new", style=styles[i], nw=nat[i][0], nh=nat[i][1], sub=(i + len(scripts)) % 3,
+                    fs=fs_for(styles[i], len(scripts) + 2 * i)) for i in range(3)]
         cur = g.inits[0]
         w = cw.World(ident, 8, 5, seed=seed * 100003 + len(scripts))
         try:
@@ -304,7 +305,8 @@ def alloc_histories(rep: Report, seed: int) -> list[dict]:
                 e = g.edges[i]
                 o = e["op"]
                 if o["op"] == "new":
-                    op = dict(op="new", style="kitty", nw=1, nh=1, sub=o.get("cls", 0))
+                    op = dict(op="new", style="kitty", nw=1, nh=1, sub=o.get("cls", 0),
+                              fs="z%d" % [7, 1, -1, 2][len(ops) % 4] if o.get("uz") else "")
                     ops.append(op)
                     wid_before = len(w.meta)
                     apply_op(w, op)
@@ -320,7 +322,8 @@ def alloc_histories(rep: Report, seed: int) -> list[dict]:
                     match = None
                     for j, kt in g.out[cur]:
                         ej = g.edges[j]
-                        if ej["op"]["op"] != "new" or ej["op"].get("cls", 0) != o.get("cls", 0):
+                        if (ej["op"]["op"] != "new" or ej["op"].get("cls", 0) != o.get("cls", 0)
+                                or ej["op"].get("uz", 0) != o.get("uz", 0)):
                             continue
                         to = ej["to"]
                         if (ev["exc"] != "") == (ej["op"]["res"] != "") and (
@@ -362,6 +365,18 @@ def alloc_histories(rep: Report, seed: int) -> list[dict]:
 # ------------------------------------------------------- code -> spec: seeded histories
 
 NATS = [(4, 3), (2, 2), (4, 2), (3, 1), (6, 2), (2, 4), (5, 3)]
+# extra style fields of the widgets' format specs: a z field (documented as ignored) that collides with
+# allocated indexes / with other widgets' fields, mix and compress
+KITTY_FS = ["", "", "z7", "z7", "z1", "z-1m1", "z2c0", "m1", "c0"]
+ITERM_FS = ["", "", "m1", "c9"]
+
+
+def fs_for(style: str, k: int) -> str:
+    if style == "kitty":
+        return KITTY_FS[k % len(KITTY_FS)]
+    if style == "iterm2":
+        return ITERM_FS[k % len(ITERM_FS)]
+    return ""
 
 
 class Gen:
@@ -374,7 +389,7 @@ class Gen:
 
     def styles(self):
         return {"kitty": ["kitty", "kitty", "block"], "konsole": ["kitty", "iterm2", "iterm2", "block"],
-                "other": ["block"]}[self.ident]
+                "forced": ["kitty", "kitty", "block"], "other": ["block"]}[self.ident]
 
     def fit(self, w, h):
         return [i for i, (_, nw, nh) in self.live.items() if nw <= w and nh <= h]
@@ -531,7 +546,8 @@ def random_script(rng: random.Random, ident: str, length: int, *, leaf: bool, ba
         nw, nh = rng.choice([n for n in NATS if n[0] <= cols and n[1] <= rows])
         g.nwid += 1
         g.live[g.nwid] = (style, nw, nh)
-        ops.append(dict(op="new", style=style, nw=nw, nh=nh, sub=rng.choice([0, 0, 1, 1, 2])))
+        ops.append(dict(op="new", style=style, nw=nw, nh=nh, sub=rng.choice([0, 0, 1, 1, 2]),
+                        fs=fs_for(style, rng.randrange(100))))
 
     for _ in range(nlive_target):
         new()
@@ -755,7 +771,7 @@ def selftest(rep: Report, items: list[dict], verdicts: list[dict]) -> None:
     pick = None
     for it, v in zip(items, verdicts):
         if v["verdict"]["v"] == "ok" and v["mech"]["v"] == "ok" and not v["kinds"] and v["stats"]["deletes"] > 0 \
-                and v["stats"]["implied"] > 0 and it["trace"]["ident"] in ("kitty", "konsole"):
+                and v["stats"]["implied"] > 0 and it["trace"]["ident"] in ("kitty", "konsole", "forced"):
             cs = corrupted(it["trace"])
             if len(cs) >= 5:
                 pick = cs
@@ -820,6 +836,8 @@ def main(rep: Report, replay: dict | None) -> None:
                             max_len=40, limit=None, seed=rep.seed)
     items += edge_histories(rep, f"MC_UrwidScreen_edges_konsole{sfx}.cfg", "konsole", ["kitty", "kitty", "iterm2"],
                             max_len=40, limit=None, seed=rep.seed + 1)
+    items += edge_histories(rep, f"MC_UrwidScreen_edges_forced{sfx}.cfg", "forced", ["kitty", "kitty", "block"],
+                            max_len=40, limit=None, seed=rep.seed + 2)
     items += alloc_histories(rep, rep.seed)
     rep.extra["t_replay"] = round(time.time() - t0, 1)
 
@@ -827,7 +845,7 @@ def main(rep: Report, replay: dict | None) -> None:
     rng = random.Random(rep.seed * 9176 + 18)
     n = 100 if quick else 3000
     for i in range(n):
-        ident = ["kitty", "konsole", "kitty", "konsole", "other"][i % 5]
+        ident = ["kitty", "konsole", "forced", "kitty", "konsole", "other", "forced"][i % 7]
         scn = random_script(rng, ident, rng.randint(12, 40), leaf=(i % 4 == 0), bad=(i % 3 == 0))
         scn["seed"] = rng.randrange(1 << 30)
         trace, _ = run_script(scn)
